@@ -12,6 +12,7 @@ import (
 	"encoding/json"
 	"fmt"
 	"net/http"
+	"strings"
 	"testing"
 	"time"
 
@@ -49,6 +50,8 @@ type Case struct {
 	// BrokenWrites lists (as indices into the sequence of submissions) requests whose client hangs up: the
 	// response write fails. Whatever happens to them, later answers must be untouched by it.
 	BrokenWrites []int
+	// Verbosity is the process-wide klog -v level (0 default; debug logging must not change what is logged in the log)
+	Verbosity int
 }
 
 // ed25519 is not an RFC 6962 log key type: a log so configured may refuse to issue, but if it answers 200
@@ -63,6 +66,9 @@ func gen(t *rapid.T) Case {
 	c.Indirect = rapid.IntRange(0, 3).Draw(t, "indirect") == 0
 	for i, nb := 0, rapid.IntRange(0, 2).Draw(t, "nbroken"); i < nb; i++ {
 		c.BrokenWrites = append(c.BrokenWrites, rapid.IntRange(0, 6).Draw(t, "broken"))
+	}
+	if rapid.IntRange(0, 2).Draw(t, "verbose") == 0 {
+		c.Verbosity = rapid.IntRange(1, 5).Draw(t, "v")
 	}
 	n := rapid.IntRange(1, 8).Draw(t, "steps")
 	fresh := 0
@@ -173,6 +179,11 @@ func hashFormExtraData(b *world.Built) ([]byte, string) {
 }
 
 func check(t *testing.T, c Case) (v harness.Verdict) {
+	if c.Verbosity > 0 {
+		harness.SetKlogVerbosity(c.Verbosity)
+		defer harness.SetKlogVerbosity(0)
+		v.Class(fmt.Sprintf("klog-v=%d", c.Verbosity))
+	}
 	logKey := keys.Pick(c.LogKeyKind, c.LogKeyIdx)
 	be := reflog.New(6962, 1)
 	clock := ctfex.NewClock(time.Unix(0, c.ClockNs))
@@ -361,6 +372,9 @@ func check(t *testing.T, c Case) (v harness.Verdict) {
 			v.Class("reissued-root-copy-in-chain")
 		case b.Spec.RootTwin == 2:
 			v.Class("cross-certificate-of-trusted-root-in-chain")
+		}
+		if n := len(b.Spec.Inters); n > 0 && strings.HasSuffix(b.Spec.Inters[n-1], "-nonull") {
+			v.Class("issuer-rsa-key-without-null-parameters")
 		}
 	}
 	for i, s := range c.Steps {
